@@ -109,7 +109,7 @@ Step ==
                                         \cup (IF Cfg.unordered /\ InFlight # 0 THEN {"C07"} ELSE {})
                         /\ UNCHANGED <<wr, rc, seen, gap, nr, nl, cl, dead, added, live, oc, stop, stopret, grace>>
        [] e.e = "EV" -> /\ viol' = viol \cup Also17(IF e.note # "nil" /\ ~Cfg.fault THEN {"C07"} ELSE {})
-                                        \cup (IF Cfg.fault /\ e.note \notin {"nil", "divider produces an incorrect distribution"} THEN {"C15"} ELSE {})
+                                        \cup (IF Cfg.fault /\ e.note \notin {"nil", "ErrDividerBad"} THEN {"C15"} ELSE {})
                         /\ Keep
        [] e.e = "Deadline" -> viol' = viol \cup {IF Cfg.fault THEN "C15" ELSE "C07"} /\ Keep
        [] e.e = "RelPanic" -> viol' = viol \cup {IF Cfg.fault THEN "C15" ELSE "C07"} /\ Keep   \* terminated with an unreleased item
